@@ -226,6 +226,36 @@ Theorem C15_bump_reschedules_exactly_owner : forall e e' tk0 a0 c tags hint s,
 Proof. exact BN_bump_reschedules_owner. Qed.
 Print Assumptions C15_bump_reschedules_exactly_owner.
 
+(* refinement: the name-level build selects the same nodes as the id-level version
+   tables T of Model/Build.v computed from the names (tables_of: a name is numbered
+   by its position among the names of its level, an algorithm by its node id, a
+   version string by its position among the version strings; own_sv/own_v = node
+   of the generated 'task.alg' prefix) -- so C15_build_exact / C15_changed_iff
+   above speak about the same scheduling decision, for every engine and every
+   persisted tables (no well-formedness of the persisted side needed) *)
+Theorem C15_names_refine_tables : forall tags e p y,
+  NoDup tags -> y < length tags ->
+  (forall k, In k (map fst (fst (fst (current e)))) -> alg_of k = k) ->
+  (In y (nodes_changed tags e p) <-> In y (changed_of (tables_of tags e p))).
+Proof. exact BN_refines_tables. Qed.
+Print Assumptions C15_names_refine_tables.
+
+Theorem C15_names_refine_build : forall c tags e ct p hint s,
+  persisted ct = Some p -> NoDup tags -> length tags = nnodes c ->
+  (forall k, In k (map fst (fst (fst (current e)))) -> alg_of k = k) ->
+  exists s', build_names c tags e ct hint s = Some s' /\
+    let s2 := build_versions c (tables_of tags e p) hint s in
+    (forall y t, In t (todo (getn (ns s') y)) <-> In t (todo (getn (ns s2) y))) /\
+    (forall z, In z (que s') <-> In z (que s2)).
+Proof. exact BN_refines_build. Qed.
+Print Assumptions C15_names_refine_build.
+
+(* the side condition of the refinement holds for every engine with dot-free names *)
+Theorem C15_names_refine_side : forall e, wf_engine e ->
+  forall k, In k (map fst (fst (fst (current e)))) -> alg_of k = k.
+Proof. exact BN_alg_keys_own. Qed.
+Print Assumptions C15_names_refine_side.
+
 (* non-vacuity, with confusable names net.fit / net.fit2 / cal.fit / cal.fitter
    (nodes 2 / 3 / 0 / 1): the hypotheses hold for the example engine; the generated
    prefix function cuts at the dots; everything registered -> nothing changes; the
@@ -240,6 +270,8 @@ Example C15_names_example :
   /\ option_map (nodes_changed ex_tags (ex_engine (1, 0, 0)%Z))
                 (persisted (registered (record_all (ex_engine (1, 0, 0)%Z)))) = Some []
   /\ option_map (nodes_changed ex_tags (ex_engine (1, 1, 0)%Z))
+                (persisted (registered (record_all (ex_engine (1, 0, 0)%Z)))) = Some [3]
+  /\ option_map (fun p => changed_of (tables_of ex_tags (ex_engine (1, 1, 0)%Z) p))
                 (persisted (registered (record_all (ex_engine (1, 0, 0)%Z)))) = Some [3].
 Proof. vm_compute. repeat split; reflexivity. Qed.
 End Names.
